@@ -112,6 +112,20 @@ def invariance_case(chk, r, kind, els, total, p):
     gs = GeoSeries(arr, index=[f"k{i}" for i in range(n)]).hilbert_distance(total_bounds=list(total), p=p)
     if [int(x) for x in gs.values] != hd or list(gs.index) != [f"k{i}" for i in range(n)]:
         chk.violation("hilbert_distance/series-form-differs", dict(rep, series=[int(x) for x in gs.values], array=hd), size=n); return
+    # the same coordinates stored with another coordinate subtype: the curve cell depends on the bounding box and the extent only
+    if all(float(c) == int(c) and abs(c) < 2 ** 24 for e in els if e is not None for v in geo.verts_of(kind, e) for c in v):
+        for sub in ("int64", "int32", "float32"):
+            try:
+                arr_s = geo.make_array(kind, els, sub)
+                hd_s = [int(x) for x in arr_s.hilbert_distance(total_bounds=list(total), p=p)]
+                gs_s = [int(x) for x in GeoSeries(arr_s).hilbert_distance(total_bounds=list(total), p=p).values]
+            except Exception as e:  # noqa: BLE001
+                chk.violation(f"hilbert_distance/raises-{common.err_kind(e)}/subtype-{sub}", dict(rep, error=repr(e)[:200]), size=n); return
+            if hd_s != hd:
+                chk.violation(f"hilbert_distance/depends-on-coordinate-subtype/array/{sub}", dict(rep, subtype=sub, impl=hd_s, float64=hd), size=n); return
+            if gs_s != hd:
+                chk.violation(f"hilbert_distance/depends-on-coordinate-subtype/series/{sub}", dict(rep, subtype=sub, series=gs_s, float64=hd), size=n); return
+            chk.count("subtype:" + sub)
     chk.count("invariance-cases")
 
 
